@@ -184,7 +184,17 @@ func (p *Program) extractConst(cs ConstSite) (string, error) {
 		}
 		for i := 0; i < st.NumFields(); i++ {
 			if st.Field(i).Name() == parts[1] {
-				return short(typeString(st.Field(i).Type())), nil
+				ft := st.Field(i).Type()
+				// a named type of the module that the table does not know stands for its
+				// underlying type (nonce chunkNonce, with type chunkNonce [12]byte)
+				if nt, isNamed := ft.(*types.Named); isNamed && nt.Obj().Pkg() != nil && nt.Obj().Pkg().Path() == cs.Pkg {
+					if _, pinned := loadShapes().Fields[typeString(nt)]; !pinned {
+						if _, isStruct := nt.Underlying().(*types.Struct); !isStruct {
+							ft = nt.Underlying()
+						}
+					}
+				}
+				return short(typeString(ft)), nil
 			}
 		}
 		return "", fmt.Errorf("field not found")
